@@ -260,14 +260,17 @@ def window_enum(jobs, refs, dirty, seed, out, bump):
     return False
 
 
-def run_line(seed, out, bump):
+def run_line(seed, out, bump, force=None):
     rng_scene = kernel.stream(seed, 'scene')
     n_workers = rng_scene.choice([2, 2, 3])
     classes = [rng_scene.choice(['rng-sensitive', 'rng-sensitive', 'split', 'demo-like',
                                  'multi-merge'])]
     classes += [rng_scene.choice(LINE_CLASSES) for _ in range(n_workers - 1)]
     rng_scene.shuffle(classes)
-    if rng_scene.random() < 1 / 16:          # both chunks large (> 1000 hits each)
+    if force is not None:                    # stratum: one worker of a class the draw may miss
+        classes[0] = force
+        bump(f'probe.forced_scene_{force}')
+    if force is None and rng_scene.random() < 1 / 16:          # both chunks large (> 1000 hits each)
         classes = ['large', 'large']
         n_workers = 2
         bump('probe.large_job_pair')
@@ -334,9 +337,11 @@ def run_line(seed, out, bump):
 # ------------------------------------------------------------------------------------------
 # (b') systematic single pre-emption: park worker A at every source line it reaches
 # ------------------------------------------------------------------------------------------
-def sweep_jobs(seed, dense=True):
+def sweep_jobs(seed, dense=True, force_a=None):
     rng = kernel.stream(seed, 'scene')
     ca = rng.choice(['demo-like', 'rng-sensitive', 'merge+split', 'demo-like', 'multi-merge'])
+    if force_a is not None:
+        ca = force_a
     cb = rng.choice(['demo-like', 'rng-sensitive', 'split'])
     # the parked worker keeps (mostly) default parameters, the other one gets a non-default value
     # for every leaf: whatever parameter-derived state leaks from B is then wrong for A
@@ -354,7 +359,7 @@ def run_sweep(run, out, bump):
     """Worker `a` is parked at the chosen occurrence of each source line it reaches (one line per
     simulated run); the other worker then runs to completion; `a` resumes. Complete for 'one
     pre-emption at that occurrence of every static line reached', for this job pair."""
-    jobs = sweep_jobs(run['seed'], run.get('dense', True))
+    jobs = sweep_jobs(run['seed'], run.get('dense', True), run.get('force_a'))
     a = run['dir']
     b = 1 - a
     refs = references(jobs, run['seed'], lines=True)
@@ -533,12 +538,21 @@ def plan(tier, master):
         for lo in range(0, 900, 15):
             runs.append({'kind': 'sweep', 'seed': kernel.run_seed(PROP, master, f'sweep-{p}'),
                          'dir': d, 'occ': o, 'lo': lo, 'hi': lo + 15, 'dense': p % 2 == 0})
+    # stratum: the stalled worker is one whose close-group merging iterates (a long stall inside a
+    # loop that is still working is where a deadline, retry budget or progress counter would bite)
+    for o in (['first'] if tier == 'quick' else ['first', 'seeded']):
+        for lo in range(0, 900, 15):
+            runs.append({'kind': 'sweep', 'seed': kernel.run_seed(PROP, master, 'sweep-mm'),
+                         'dir': 0, 'occ': o, 'lo': lo, 'hi': lo + 15, 'dense': True,
+                         'force_a': 'multi-merge'})
     n_jobsets = 64 if tier == 'quick' else 2000     # x SCHEDULES_PER_JOBSET simulated runs
     per = 1 if tier == 'quick' else 2
     line = []
     for i in range(0, n_jobsets, per):
         line.append({'kind': 'line', 'seeds': [kernel.run_seed(PROP, master, i + j)
                                                for j in range(per)]})
+        if i % (8 * per) == 0:      # stratified: a worker whose merge loop iterates, every tier
+            line[-1]['force'] = 'multi-merge'
     return line + runs          # the longest runs are dispatched first
 
 
@@ -561,7 +575,7 @@ def execute(run):
         run_sweep(run, out, bump)
     else:
         for seed in run['seeds']:
-            run_line(seed, out, bump)
+            run_line(seed, out, bump, run.get('force'))
     if 'clock_span_s' in out:
         out['sets']['clock_span'] = {out.pop('clock_span_s')}
     return out
